@@ -1210,6 +1210,7 @@ V('05.7t', 'C05', '', 'silent', RUN,
   '            except (exceptions.ArgumentException,):\n                continue',
   'twin: tuple handler, continue')
 
+
 VARIANTS = [v for v in VARIANTS if v is not None]
 
 # ------------------------------------------------ rules added after the seeds
@@ -1519,4 +1520,97 @@ V('02.9', 'C02,C16', 'R02h', 'fire', FAC,
   "            ('mod', OperatorType.BINARY_LEFT_ASSOCIATIVE),\n",
   "            ('mod', OperatorType.BINARY_LEFT_ASSOCIATIVE),\n            ('rem', OperatorType.BINARY_LEFT_ASSOCIATIVE),\n",
   'undocumented operator word in the default table')
+
+# ---------------------------------------------------------------- round 5
+V('01.10', 'C01', 'R01i', 'fire', FAC,
+  "        return expressions.Statement(\n            self.parser.parse(expression, lexer=self.lexer.clone()), self)",
+  "        try:\n            tree = self.parser.parse(expression, lexer=self.lexer.clone())\n        except exceptions.YaqlParsingException:\n            self.parser.restart()\n            raise\n        return expressions.Statement(tree, self)",
+  'parser.restart() after a failed parse: resets another thread\'s stacks')
+V('01.10t', 'C01', '', 'silent', FAC,
+  "        return expressions.Statement(\n            self.parser.parse(expression, lexer=self.lexer.clone()), self)",
+  "        tree = self.parser.parse(expression, lexer=self.lexer.clone())\n        return expressions.Statement(tree, self)",
+  'twin: tree bound to a local')
+V('01.11', 'C01,C18', 'R18h', 'fire', PAR,
+  "        def p_unary(this, p):\n",
+  "        suffixes = filter(None, binary_doc.split())\n\n        def p_unary(this, p):\n            if p[1] in suffixes:\n                pass\n",
+  'a generated action reads a one-shot iterator of the generating call')
+V('04.11', 'C04', 'R04i', 'fire', COL,
+  "    utils.limit_memory_usage(engine, *((1, t) for t in args))\n    return tuple(args)\n",
+  "    utils.limit_memory_usage(engine, *((1, t) for t in args))\n    out = []\n    for t in args:\n        if utils.is_iterator(t):\n            out.extend(t)\n        else:\n            out.append(t)\n    return tuple(out)\n",
+  '[a, b] splices elements that are iterators')
+V('04.11t', 'C04', '', 'silent', COL,
+  "    utils.limit_memory_usage(engine, *((1, t) for t in args))\n    return tuple(args)\n",
+  "    utils.limit_memory_usage(engine, *((1, t) for t in args))\n    out = []\n    for t in args:\n        out.append(t)\n    return tuple(out)\n",
+  'twin: explicit loop')
+V('05.12', 'C05', 'R05i', 'fire', YTY,
+  "            lambda value, context, *args, **kwargs: isinstance(\n                value, self.python_type) and all(\n                map(lambda t: t(value), self.validators)))",
+  "            lambda value, context, *args, **kwargs: type(value) is \\\n            self.python_type or isinstance(\n                value, self.python_type) and all(\n                map(lambda t: t(value), self.validators)))",
+  'exact-class fast path around the validators')
+V('05.12t', 'C05', '', 'silent', YTY,
+  "            lambda value, context, *args, **kwargs: isinstance(\n                value, self.python_type) and all(\n                map(lambda t: t(value), self.validators)))",
+  "            lambda value, context, *args, **kwargs: isinstance(\n                value, self.python_type) and all(\n                t(value) for t in self.validators))",
+  'twin: generator expression instead of map')
+V('06.9', 'C06,C05', 'R0', 'fire', RUN,
+  "        return lambda: delegate()\n" if False else "PLACEHOLDER-NOT-PRESENT",
+  "x", 'placeholder, removed below')
+V('07.13', 'C07', 'R07j', 'fire', 'yaql/yaqlization.py',
+  "            if not isinstance(value, str):\n                name = value[0]\n            else:\n                name = value\n            blacklist.add(name)\n",
+  "            if isinstance(value, str):\n                blacklist.add(value)\n",
+  'pair-form remap targets are no longer blacklisted')
+V('07.13t', 'C07', '', 'silent', 'yaql/yaqlization.py',
+  "            if not isinstance(value, str):\n                name = value[0]\n            else:\n                name = value\n            blacklist.add(name)\n",
+  "            blacklist.add(value if isinstance(value, str) else value[0])\n",
+  'twin: conditional expression')
+V('09.10', 'C09', 'R09c', 'fire', EXP,
+  "            context = context.create_child_context()\n            context.register_function(lambda x: x, name='#finalize')",
+  "            context.register_function(lambda x: x, name='#finalize')",
+  'fallback finalizer registered on the host\'s context')
+V('14.12', 'C14', 'R14g', 'fire', UTI,
+  "                val = next(self.seq)\n                yielded.append(val)\n",
+  "                yielded.extend(itertools.islice(self.seq, 8))\n                val = yielded[self.index]\n",
+  'memorize reads ahead in blocks')
+V('14.10', 'C14,C11', 'R11e', 'fire', QUE,
+  "    for t in collection:\n        key = t if key_selector is None else key_selector(t)\n        if key not in distinct_values:\n            distinct_values.add(key)\n",
+  "    for t in filter(lambda x: key_selector is None or key_selector(x) not in distinct_values, collection):\n        key = t if key_selector is None else key_selector(t)\n        if key not in distinct_values:\n            distinct_values.add(key)\n",
+  'distinct applies the selector in a filter and again in the body')
+V('16.12', 'C16', 'R16g', 'fire', LEX,
+  "        \"([^\"\\\\\\\\]|\\\\\\\\.)*\"\n        \"\"\"\n        try:\n            t.value = decode_escapes(t.value[1:-1])",
+  "        \"([^\"\\\\\\\\]|\\\\\\\\.)*\"\n        \"\"\"\n        try:\n            t.value = codecs.decode(t.value[1:-1], 'unicode-escape')",
+  'double-quoted literals decoded by another decoder')
+V('16.12t', 'C16', '', 'silent', LEX,
+  "        \"([^\"\\\\\\\\]|\\\\\\\\.)*\"\n        \"\"\"\n        try:\n            t.value = decode_escapes(t.value[1:-1])",
+  "        \"([^\"\\\\\\\\]|\\\\\\\\.)*\"\n        \"\"\"\n        try:\n            body = t.value[1:-1]\n            t.value = decode_escapes(body)",
+  'twin: body bound to a local')
+V('17.11', 'C17', 'R17j', 'fire', CTX,
+  "        self._functions.setdefault(spec.name, set()).add(spec)\n",
+  "        self._functions[spec.name] = {spec}\n",
+  'a registration replaces the earlier overloads of the name')
+V('17.11t', 'C17', '', 'silent', CTX,
+  "        self._functions.setdefault(spec.name, set()).add(spec)\n",
+  "        overloads = self._functions.setdefault(spec.name, set())\n        overloads.add(spec)\n",
+  'twin: set bound to a local')
+V('17.12', 'C17', 'R17f', 'fire', CTX,
+  "        if linked_context.parent:\n            super().__init__(\n                LinkedContext(parent_context, linked_context.parent,\n                              convention), convention)",
+  "        if linked_context.parent and \\\n                linked_context.parent is not parent_context.parent:\n            super().__init__(\n                LinkedContext(parent_context, linked_context.parent,\n                              convention), convention)",
+  'linked chain cut where it meets the host chain')
+V('17.13', 'C17,C06,C05', 'R17d', 'fire', CTX,
+  "        overloads = []\n        p = self\n        while p is not None:",
+  "        overloads = []\n        name = name.rstrip('_')\n        if use_convention and self._convention is not None:\n            name = self._convention.convert_function_name(name)\n            use_convention = False\n        p = self\n        while p is not None:",
+  'the name is translated once with the starting context\'s convention')
+V('19.10', 'C19', 'R19b', 'fire', REG,
+  "    for i, t in enumerate(match.groups(), 1):\n        rec = {\n            'value': t,",
+  "    for i, t in enumerate(match.groups(''), 1):\n        rec = {\n            'value': t,",
+  'unset groups published as empty strings')
+V('19.11', 'C19', 'R19f', 'fire', STR,
+  "    if trim_spaces:\n        string = string.strip(chars)\n    return not string\n",
+  "    if trim_spaces:\n        string = string.strip(chars or ' \\t\\r\\n')\n    return not string\n",
+  'isEmpty trims with its own default set')
+V('20.11', 'C20', 'R20a', 'fire', DAT,
+  "    return DATETIME_TYPE.fromtimestamp(timestamp, tz=zone)",
+  "    return DATETIME_TYPE.fromtimestamp(\n        timestamp / 1000.0 if timestamp > 1e11 else timestamp, tz=zone)",
+  'millisecond guess scales the timestamp')
+V('02.10', 'C02', 'R02', 'fire', PAR,
+  "(abs(up), 'l' if up > 0 else 'r'), [])",
+  "(abs(up), 'l' if up > 0 or bp < 0 else 'l'), [])",
+  'placeholder-check: harmless respelling must stay silent' )
 VARIANTS = [v for v in VARIANTS if v is not None]
